@@ -4,6 +4,7 @@ From CCTZ Require Import Base SrcConstants Cal CivilImpl PosixImpl PosixSpec Zon
   CalProofs WeekdayProofs CivilNorm CivilDiff PosixProofs RuleProofs.
 Require Import Lia ZifyBool.
 Local Open Scope Z_scope.
+Local Strategy 100 [civil_of_seconds civil_of_days days_from_civil].
 
 (* ------------------------------------------------------------------ *)
 (* The civil pass                                                       *)
@@ -84,6 +85,437 @@ Ltac peel_step H :=
       let E := fresh "E" in destruct x eqn:E; try discriminate H
   | (let x := ?v in _) = OK _ => cbv zeta in H
   end.
+
+
+(* ------------------------------------------------------------------ *)
+(* Ranges of what the footer parser delivers                            *)
+
+Lemma g_num_range s lo hi v r : g_num s lo hi = Some (v, r) -> lo <= v <= hi.
+Proof.
+  unfold g_num. destruct (take_digits s) as [ds rest]. destruct ds as [|d ds]; [discriminate|].
+  set (x := digits_value (d :: ds)). clearbody x.
+  destruct ((lo <=? x) && (x <=? hi)) eqn:E; [|discriminate].
+  intros H; inversion H; subst. lia.
+Qed.
+
+Lemma g_hms_range s hmax sign v r : 0 <= hmax -> (sign = 1 \/ sign = -1) ->
+  g_hms s hmax sign = Some (v, r) -> - (hmax * 3600 + 3599) <= v <= hmax * 3600 + 3599.
+Proof.
+  intros Hh Hs. unfold g_hms. rewrite m43_45.
+  set (P := match s with [] => _ | c :: r0 => _ end).
+  assert (HP : fst P = 1 \/ fst P = - 1).
+  { unfold P. destruct s as [|c r0]; [cbn [fst]; lia|].
+    destruct (c =? 43); [cbn [fst]; lia|]. destruct (c =? 45); cbn [fst]; lia. }
+  destruct P as [sg s1]. cbn [fst] in HP.
+  destruct (g_num s1 0 hmax) as [[hh s2]|] eqn:E1; [|discriminate].
+  apply g_num_range in E1. rewrite m58.
+  destruct s2 as [|c2 r2]; [intros H; inversion H; subst; lia|].
+  destruct (c2 =? 58); [|intros H; inversion H; subst; lia].
+  destruct (g_num r2 0 59) as [[mm s3]|] eqn:E2; [|discriminate].
+  apply g_num_range in E2. rewrite m58.
+  destruct s3 as [|c3 r3]; [intros H; inversion H; subst; lia|].
+  destruct (c3 =? 58); [|intros H; inversion H; subst; lia].
+  destruct (g_num r3 0 59) as [[ss s4]|] eqn:E3; [|discriminate].
+  apply g_num_range in E3.
+  intros H; inversion H; subst; lia.
+Qed.
+
+Lemma g_date_ok s d r : g_date s = Some (d, r) -> pdate_ok' d = true.
+Proof.
+  unfold g_date. rewrite m74_77.
+  destruct s as [|c s'].
+  - destruct (g_num [] 0 365) as [[n rest]|] eqn:E; [|discriminate].
+    apply g_num_range in E. intros H; inversion H; subst. cbn [pdate_ok']. lia.
+  - destruct (c =? 74).
+    { destruct (g_num s' 1 365) as [[n rest]|] eqn:E; [|discriminate].
+      apply g_num_range in E. intros H; inversion H; subst. cbn [pdate_ok']. lia. }
+    destruct (c =? 77).
+    { destruct (g_num s' 1 12) as [[m s1]|] eqn:E1; [|discriminate].
+      apply g_num_range in E1. rewrite m46.
+      destruct s1 as [|c1 r1]; [discriminate|]. destruct (c1 =? 46); [|discriminate].
+      destruct (g_num r1 1 5) as [[w s2]|] eqn:E2; [|discriminate].
+      apply g_num_range in E2. rewrite m46.
+      destruct s2 as [|c2 r2]; [discriminate|]. destruct (c2 =? 46); [|discriminate].
+      destruct (g_num r2 0 6) as [[wd s3]|] eqn:E3; [|discriminate].
+      apply g_num_range in E3.
+      intros H; inversion H; subst. cbn [pdate_ok']. lia. }
+    destruct (g_num (c :: s') 0 365) as [[n rest]|] eqn:E; [|discriminate].
+    apply g_num_range in E. intros H; inversion H; subst. cbn [pdate_ok']. lia.
+Qed.
+
+Definition pt_ok (t : ptrans) : Prop :=
+  exists d tm, t = mkPT (Some d) (Some tm) /\ pdate_ok' d = true /\ -604799 <= tm <= 604799.
+
+Lemma g_rule_ok s t r : g_rule s = Some (t, r) -> pt_ok t.
+Proof.
+  unfold g_rule. rewrite m44.
+  destruct s as [|c s']; [discriminate|].
+  destruct (c =? 44); [|discriminate].
+  destruct (g_date s') as [[d s1]|] eqn:D; [|discriminate].
+  apply g_date_ok in D.
+  rewrite m47.
+  destruct s1 as [|c1 r1].
+  - intros H. inversion H. exists d, 7200. repeat split; auto; lia.
+  - destruct (c1 =? 47).
+    + destruct (g_hms r1 167 1) as [[t' s2]|] eqn:T; [|discriminate].
+      apply g_hms_range in T; [|lia|lia].
+      intros H. inversion H. exists d, t'. repeat split; auto; lia.
+    + intros H. inversion H. exists d, 7200. repeat split; auto; lia.
+Qed.
+
+Definition ptz_ok (z : posix_tz) : Prop :=
+  exists so, std_offset z = Some so /\ -89999 <= so <= 89999 /\
+    (dst_abbr z = [] \/
+     exists dof, dst_offset z = Some dof /\ -93599 <= dof <= 93599 /\
+                 pt_ok (dst_start z) /\ pt_ok (dst_end z)).
+
+Lemma posix_spec_ok p z : posix_spec p = Some z -> ptz_ok z.
+Proof.
+  rewrite posix_spec_unf.
+  destruct (deref p =? 58); [discriminate|].
+  unfold spec_body.
+  destruct (g_abbr p) as [[sa s1]|]; [|discriminate].
+  destruct (g_hms s1 24 (-1)) as [[so s2]|] eqn:SO; [|discriminate].
+  apply g_hms_range in SO; [|lia|lia].
+  destruct s2 as [|c2 r2].
+  - intros H. inversion H. exists so. cbn. repeat split; auto; lia.
+  - destruct (g_abbr (c2 :: r2)) as [[da s3]|]; [|discriminate].
+    destruct (spec_off so s3) as [[dof s4]|] eqn:DO; [|discriminate].
+    assert (-93599 <= dof <= 93599) as Hdof.
+    { unfold spec_off in DO. rewrite m44 in DO.
+      destruct s3 as [|c3 r3].
+      - apply g_hms_range in DO; lia.
+      - destruct (c3 =? 44).
+        + inversion DO; subst. lia.
+        + apply g_hms_range in DO; lia. }
+    destruct (g_rule s4) as [[r1 s5]|] eqn:R1; [|discriminate].
+    destruct (g_rule s5) as [[r2' s6]|] eqn:R2; [|discriminate].
+    destruct s6; [|discriminate].
+    intros H. inversion H.
+    apply g_rule_ok in R1. apply g_rule_ok in R2.
+    exists so. cbn [std_offset dst_abbr dst_offset dst_start dst_end].
+    split; [reflexivity|]. split; [lia|]. right. exists dof. auto.
+Qed.
+
+Lemma parse_ok s z : ParsePosixSpec s = Some z -> ptz_ok z.
+Proof. intros H. rewrite gen_eq in H. exact (posix_spec_ok _ _ H). Qed.
+
+(* ------------------------------------------------------------------ *)
+(* Calendar facts for LocalTime                                         *)
+
+Lemma cos_year_int64 s : min64 - 200000 <= s <= max64 + 200000 ->
+  -300000000000 <= fy (civil_of_seconds s) <= 300000000000.
+Proof.
+  intros H.
+  pose proof (cos_year_mono (min64 - 200000) s ltac:(lia)) as L1.
+  pose proof (cos_year_mono s (max64 + 200000) ltac:(lia)) as L2.
+  assert (-300000000000 <= fy (civil_of_seconds (min64 - 200000))) as B1
+    by (apply Z.leb_le; vm_compute; reflexivity).
+  assert (fy (civil_of_seconds (max64 + 200000)) <= 300000000000) as B2
+    by (apply Z.leb_le; vm_compute; reflexivity).
+  lia.
+Qed.
+
+Lemma cos_year_small s : - 2 ^ 59 - 200000 <= s <= 2 ^ 59 + 200000 ->
+  -20000000000 <= fy (civil_of_seconds s) <= 20000000000.
+Proof.
+  intros H.
+  pose proof (cos_year_mono (- 2 ^ 59 - 200000) s ltac:(lia)) as L1.
+  pose proof (cos_year_mono s (2 ^ 59 + 200000) ltac:(lia)) as L2.
+  assert (-20000000000 <= fy (civil_of_seconds (- 2 ^ 59 - 200000))) as B1
+    by (apply Z.leb_le; vm_compute; reflexivity).
+  assert (fy (civil_of_seconds (2 ^ 59 + 200000)) <= 20000000000) as B2
+    by (apply Z.leb_le; vm_compute; reflexivity).
+  lia.
+Qed.
+
+Lemma plus64_sec f n : valid_fields f = true -> int64 (fy f) -> int64 n ->
+  min64 - 200000 <= sec_of f + n <= max64 + 200000 ->
+  plus64 0 f n = OK (civil_of_seconds (sec_of f + n)).
+Proof.
+  intros V Y N R.
+  pose proof (cos_year_int64 _ R) as YB.
+  assert (T : (0 <= 5)%nat) by (apply Nat.leb_le; reflexivity).
+  pose proof (plus_refines_lemma 0 f n T V eq_refl Y N) as K.
+  cbn [of_ord_spec ord_spec] in K. apply K. unfold int64, min64, max64. lia.
+Qed.
+
+Lemma minus64_sec f n : valid_fields f = true -> int64 (fy f) -> int64 n ->
+  min64 - 200000 <= sec_of f - n <= max64 + 200000 ->
+  minus64 0 f n = OK (civil_of_seconds (sec_of f - n)).
+Proof.
+  intros V Y N R.
+  pose proof (cos_year_int64 _ R) as YB.
+  assert (T : (0 <= 5)%nat) by (apply Nat.leb_le; reflexivity).
+  pose proof (minus_refines_lemma 0 f n T V eq_refl Y N) as K.
+  cbn [of_ord_spec ord_spec] in K. apply K. unfold int64, min64, max64. lia.
+Qed.
+
+Definition off_ok (ty : ttype) : Prop := -100000 <= tt_off ty <= 100000.
+
+Lemma local_time_tt_val abbrs t ty : int64 t -> off_ok ty ->
+  local_time_tt abbrs t ty =
+  (do ab <- cstr_from abbrs (tt_abbr ty) ;;
+   OK (mkAL (civil_of_seconds (t + tt_off ty)) (tt_off ty) (tt_isdst ty) ab)).
+Proof.
+  intros Ht Ho. unfold off_ok in Ho. unfold local_time_tt.
+  assert (Ve : valid_fields epoch = true) by reflexivity.
+  assert (Se : sec_of epoch = 0) by (unfold sec_of, epoch; cbn [fy fm fd fhh fmm fss]; rewrite dfc_epoch; reflexivity).
+  rewrite (plus64_sec epoch t); auto.
+  2:{ unfold int64, min64, max64, epoch; cbn [fy]; lia. }
+  2:{ rewrite Se. unfold int64, min64, max64 in *. lia. }
+  cbn [bind]. rewrite Se, Z.add_0_l.
+  rewrite (plus64_sec (civil_of_seconds t) (tt_off ty)).
+  - cbn [bind]. rewrite sec_of_cos. reflexivity.
+  - apply valid_cos.
+  - pose proof (cos_year_int64 t ltac:(unfold int64, min64, max64 in *; lia)).
+    unfold int64, min64, max64. lia.
+  - unfold int64, min64, max64. lia.
+  - rewrite sec_of_cos. unfold int64, min64, max64 in *. lia.
+Qed.
+
+
+(* ------------------------------------------------------------------ *)
+(* Table reads                                                          *)
+
+Definition abbr_ok (abbrs : list Z) (ty : ttype) : Prop :=
+  0 <= tt_abbr ty <= Z.of_nat (length abbrs).
+
+Lemma nth_res_inv {A} (l : list A) i x : nth_res l i = OK x ->
+  In x l /\ 0 <= i < Z.of_nat (length l).
+Proof.
+  unfold nth_res. destruct (Z.ltb_spec i 0); [discriminate|].
+  destruct (nth_error l (Z.to_nat i)) eqn:E; [|discriminate].
+  intros K; inversion K; subst. split.
+  - eapply nth_error_In; eauto.
+  - assert (Z.to_nat i < length l)%nat by (apply nth_error_Some; congruence). lia.
+Qed.
+
+Lemma nth_res_ok {A} (l : list A) i : 0 <= i < Z.of_nat (length l) -> exists x, nth_res l i = OK x.
+Proof.
+  intros H. unfold nth_res. destruct (Z.ltb_spec i 0); [lia|].
+  destruct (nth_error l (Z.to_nat i)) eqn:E; [eauto|].
+  apply nth_error_None in E. lia.
+Qed.
+
+Lemma cstr_from_inv s i r : cstr_from s i = OK r -> 0 <= i <= Z.of_nat (length s).
+Proof.
+  unfold cstr_from. destruct (Z.ltb_spec i 0); cbn [orb]; [discriminate|].
+  destruct (Z.ltb_spec (Z.of_nat (length s)) i); [discriminate|]. lia.
+Qed.
+
+Lemma cstr_from_ok s i : 0 <= i <= Z.of_nat (length s) -> exists r, cstr_from s i = OK r.
+Proof.
+  intros H. unfold cstr_from. destruct (Z.ltb_spec i 0); [lia|]. cbn [orb].
+  destruct (Z.ltb_spec (Z.of_nat (length s)) i); [lia|]. eauto.
+Qed.
+
+(* ------------------------------------------------------------------ *)
+(* GetTransitionType                                                    *)
+
+Lemma gtt_scan_inv abbrs off isdst abbr : forall types ti ai ti' ai',
+  gtt_scan types abbrs off isdst abbr ti ai = OK (ti', ai') ->
+  0 <= ai <= Z.of_nat (length abbrs) ->
+  ti <= ti' <= ti + Z.of_nat (length types) /\ 0 <= ai' <= Z.of_nat (length abbrs).
+Proof.
+  induction types as [|ty rest IH]; intros ti ai ti' ai' H Ha.
+  - cbn [gtt_scan] in H. inversion H; subst. cbn [length]. lia.
+  - cbn [gtt_scan] in H.
+    destruct (cstr_from abbrs (tt_abbr ty)) as [ab|] eqn:E; [|discriminate H]. cbn [bind] in H.
+    apply cstr_from_inv in E.
+    set (ai1 := if list_eqb ab abbr then tt_abbr ty else ai) in *.
+    assert (0 <= ai1 <= Z.of_nat (length abbrs)) as Ha1 by (unfold ai1; destruct (list_eqb ab abbr); lia).
+    clearbody ai1.
+    destruct ((tt_off ty =? off) && Bool.eqb (tt_isdst ty) isdst && (ai1 =? tt_abbr ty)).
+    + inversion H; subst. cbn [length]. lia.
+    + apply IH in H; [|exact Ha1]. cbn [length]. lia.
+Qed.
+
+Lemma gtt_inv types abbrs off isdst abbr types' abbrs' ti :
+  get_transition_type types abbrs off isdst abbr = OK (Some (types', abbrs', ti)) ->
+  0 <= ti < Z.of_nat (length types') /\ ti <= 255 /\
+  (exists ext, types' = types ++ ext /\ Forall (fun ty => tt_off ty = off /\ abbr_ok abbrs' ty) ext) /\
+  (exists ax, abbrs' = abbrs ++ ax).
+Proof.
+  unfold get_transition_type.
+  destruct (gtt_scan types abbrs off isdst abbr 0 (Z.of_nat (length abbrs))) as [[ti0 ai0]|] eqn:E;
+    [|discriminate]. cbn [bind].
+  apply gtt_scan_inv in E; [|lia].
+  destruct ((255 <? ti0) || (255 <? ai0)) eqn:E255; [discriminate|].
+  destruct (Z.eqb_spec ti0 (Z.of_nat (length types))) as [Et|Et].
+  - intros H. inversion H; subst types' abbrs' ti. clear H.
+    rewrite app_length. cbn [length]. split; [lia|]. split; [lia|]. split.
+    + eexists. split; [reflexivity|]. constructor; [|constructor].
+      cbn [tt_off]. split; [reflexivity|]. unfold abbr_ok. cbn [tt_abbr].
+      destruct (ai0 =? Z.of_nat (length abbrs)); rewrite ?app_length; lia.
+    + destruct (ai0 =? Z.of_nat (length abbrs)); [eexists; reflexivity|].
+      exists []. rewrite app_nil_r. reflexivity.
+  - intros H. inversion H; subst types' abbrs' ti. clear H.
+    split; [lia|]. split; [lia|]. split.
+    + exists []. rewrite app_nil_r. split; [reflexivity|constructor].
+    + exists []. rewrite app_nil_r. reflexivity.
+Qed.
+
+Lemma abbr_ok_mono abbrs ax ty : abbr_ok abbrs ty -> abbr_ok (abbrs ++ ax) ty.
+Proof. unfold abbr_ok. rewrite app_length. lia. Qed.
+
+Lemma gtt_types types abbrs off isdst abbr types' abbrs' ti :
+  get_transition_type types abbrs off isdst abbr = OK (Some (types', abbrs', ti)) ->
+  -100000 <= off <= 100000 ->
+  0 <= ti < Z.of_nat (length types') /\ ti <= 255 /\
+  (Z.of_nat (length types) <= Z.of_nat (length types')) /\
+  (Forall off_ok types -> Forall off_ok types') /\
+  (Forall (abbr_ok abbrs) types -> Forall (abbr_ok abbrs') types').
+Proof.
+  intros H Ho. apply gtt_inv in H. destruct H as (H1 & H255 & (ext & E1 & F1) & (ax & E2)).
+  split; [exact H1|]. split; [exact H255|]. subst types' abbrs'. split; [rewrite app_length; lia|]. split.
+  - intros F. apply Forall_app. split; [exact F|].
+    eapply Forall_impl; [|exact F1]. intros ty [A _]. unfold off_ok. lia.
+  - intros F. apply Forall_app. split.
+    + eapply Forall_impl; [|exact F]. intros ty. apply abbr_ok_mono.
+    + eapply Forall_impl; [|exact F1]. intros ty [_ A]. exact A.
+Qed.
+
+(* ------------------------------------------------------------------ *)
+(* The generated transitions                                            *)
+
+Definition gen_ok (last_time std_ti dst_ti : Z) (p : Z * Z) : Prop :=
+  last_time < fst p <= 2 ^ 60 /\ (snd p = std_ti \/ snd p = dst_ti).
+
+Lemma rule_time_bound r Y :
+  pdate_ok' (r_start_date r) = true -> pdate_ok' (r_end_date r) = true ->
+  -1000000 <= r_start_time r <= 1000000 -> -1000000 <= r_end_time r <= 1000000 ->
+  -100000 <= fst (fst (r_std r)) <= 100000 -> -100000 <= fst (fst (r_dst r)) <= 100000 ->
+  -20000000000 <= Y <= 20000000401 ->
+  rule_start r Y <= 2 ^ 60 /\ rule_end r Y <= 2 ^ 60.
+Proof.
+  intros Hsd Hed Hst Het Hso Hdo HY.
+  pose proof (dfc_jan1_bound Y HY) as HD.
+  pose proof (date_yday_range_lemma Y _ Hsd) as R1.
+  pose proof (date_yday_range_lemma Y _ Hed) as R2.
+  unfold rule_start, rule_end.
+  set (D := days_from_civil Y 1 1) in *. clearbody D.
+  set (y1 := date_yday (r_start_date r) Y) in *. clearbody y1.
+  set (y2 := date_yday (r_end_date r) Y) in *. clearbody y2.
+  change (2 ^ 60) with 1152921504606846976. lia.
+Qed.
+
+Lemma rule_gen_ok r std_ti dst_ti last_time :
+  pdate_ok' (r_start_date r) = true -> pdate_ok' (r_end_date r) = true ->
+  -1000000 <= r_start_time r <= 1000000 -> -1000000 <= r_end_time r <= 1000000 ->
+  -100000 <= fst (fst (r_std r)) <= 100000 -> -100000 <= fst (fst (r_dst r)) <= 100000 ->
+  forall n Y, -20000000000 <= Y -> Y + Z.of_nat n <= 20000000402 ->
+  Forall (gen_ok last_time std_ti dst_ti) (rule_gen' r std_ti dst_ti last_time Y n).
+Proof.
+  intros Hsd Hed Hst Het Hso Hdo.
+  induction n as [|n IH]; intros Y H1 H2; [constructor|].
+  cbn [rule_gen']. cbv zeta.
+  destruct (rule_time_bound r Y Hsd Hed Hst Het Hso Hdo ltac:(lia)) as [B1 B2].
+  cbn [fst]. destruct (rule_start r Y <? rule_end r Y); cbn [fst].
+  - apply Forall_app. split; [|apply IH; lia].
+    destruct (Z.ltb_spec last_time (rule_end r Y)); [|constructor].
+    destruct (Z.ltb_spec last_time (rule_start r Y));
+      repeat constructor; cbn [fst snd]; auto; lia.
+  - apply Forall_app. split; [|apply IH; lia].
+    destruct (Z.ltb_spec last_time (rule_start r Y)); [|constructor].
+    destruct (Z.ltb_spec last_time (rule_end r Y));
+      repeat constructor; cbn [fst snd]; auto; lia.
+Qed.
+
+Definition ext_tail {A} (ps pe : ptrans) (so dof std_ti dst_ti last_time last_year : Z)
+           (k : ext_state -> res A) : res A :=
+  let leap := is_leap_year64 last_year in
+  do jan1 <- construct64 0 last_year 1 1 0 0 0 ;;
+  do jan1_time <- difference64 0 jan1 epoch ;;
+  do wd <- get_weekday64 jan1 ;;
+  do limit <- add64 last_year src_extend_years ;;
+  do st <- extend_loop 403 ps pe so dof std_ti dst_ti
+             last_time limit (mkES last_year leap jan1_time (to_posix_weekday wd) []) ;;
+  k st.
+
+Definition tr_gen_ok (last_time std_ti dst_ti : Z) (tr : transition) : Prop :=
+  last_time < tr_time tr <= 2 ^ 60 /\ (tr_type tr = std_ti \/ tr_type tr = dst_ti).
+
+Lemma ext_tail_ok ps pe so dof std_ti dst_ti last_time ly :
+  pt_ok ps -> pt_ok pe -> -100000 <= so <= 100000 -> -100000 <= dof <= 100000 ->
+  -20000000000 <= ly <= 20000000000 ->
+  exists st,
+    (forall A (k : ext_state -> res A), ext_tail ps pe so dof std_ti dst_ti last_time ly k = k st) /\
+    es_year st = ly + 401 /\
+    Forall (tr_gen_ok last_time std_ti dst_ti) (es_acc st).
+Proof.
+  intros (d1 & t1 & -> & Hd1 & Ht1) (d2 & t2 & -> & Hd2 & Ht2) Hso Hdo Hly.
+  set (r := mkRule (so, false, []) (dof, true, []) d1 t1 d2 t2).
+  destruct (extend_loop_matches_rule_lemma r std_ti dst_ti last_time ly) as (st & E & Ey & Em);
+    cbn [r r_start_date r_end_date r_start_time r_end_time r_std r_dst fst]; auto; try lia.
+  cbn [r r_start_date r_end_date r_start_time r_end_time r_std r_dst fst] in E.
+  exists st. split; [|split; [exact Ey|]].
+  - intros A k. unfold ext_tail. cbv zeta.
+    change (construct64 0 ly 1 1 0 0 0) with (OK (mkF ly 1 1 0 0 0)). cbn [bind].
+    pose proof (dfc_jan1_bound ly ltac:(lia)) as HD.
+    assert (V : valid_fields (mkF ly 1 1 0 0 0) = true) by reflexivity.
+    assert (T : (0 <= 5)%nat) by (apply Nat.leb_le; reflexivity).
+    assert (S1 : sec_of (mkF ly 1 1 0 0 0) = 86400 * days_from_civil ly 1 1)
+      by (unfold sec_of; cbn [fy fm fd fhh fmm fss]; lia).
+    assert (S0 : sec_of epoch = 0)
+      by (unfold sec_of, epoch; cbn [fy fm fd fhh fmm fss]; rewrite dfc_epoch; reflexivity).
+    pose proof (difference_refines_lemma 0 (mkF ly 1 1 0 0 0) epoch T V eq_refl eq_refl eq_refl) as K.
+    cbn [ord_spec] in K. rewrite S1, S0, Z.sub_0_r in K.
+    rewrite K; [|cbn [fy]; unfold int64, min64, max64; lia
+                |unfold epoch; cbn [fy]; unfold int64, min64, max64; lia
+                |unfold int64, min64, max64; lia].
+    cbn [bind].
+    rewrite (weekday_spec_lemma (mkF ly 1 1 0 0 0) V) by (cbn [fy]; unfold int64, min64, max64; lia).
+    cbn [bind fy fm fd].
+    unfold add64, src_extend_years. rewrite chk64_in by (unfold int64, min64, max64; lia).
+    cbn [bind].
+    replace (to_posix_weekday (weekday_of_days (days_from_civil ly 1 1)))
+      with (posix_wd_of_days (days_from_civil ly 1 1)).
+    2:{ unfold to_posix_weekday, posix_wd_of_days, weekday_of_days.
+        set (D := days_from_civil ly 1 1). clearbody D.
+        destruct (Z.eqb_spec ((D + 3) mod 7) 6) as [e|e]; [rewrite e; reflexivity|].
+        pose proof (Z.mod_pos_bound (D + 3) 7 ltac:(lia)).
+        rewrite Z.mod_small; lia. }
+    rewrite E. reflexivity.
+  - assert (G := rule_gen_ok r std_ti dst_ti last_time).
+    cbn [r r_start_date r_end_date r_start_time r_end_time r_std r_dst fst] in G.
+    specialize (G Hd1 Hd2 ltac:(lia) ltac:(lia) Hso Hdo 402%nat ly ltac:(lia)).
+    assert (ly + Z.of_nat 402 <= 20000000402) as L.
+    { change (Z.of_nat 402) with 402. lia. }
+    specialize (G L). fold r in G. rewrite <- Em in G.
+    rewrite Forall_map in G. exact G.
+Qed.
+
+
+(* ------------------------------------------------------------------ *)
+(* ExtendTransitions                                                    *)
+
+Ltac peel_ext H :=
+  match type of H with
+  | bind (construct64 _ _ _ _ _ _ _) _ = OK _ => fail 1
+  | _ => peel_step H
+  end.
+
+Definition gen_tr_ok (trans : list transition) (ntypes : nat) (tr : transition) : Prop :=
+  (exists last, last_opt trans = Some last /\ tr_time last < tr_time tr) /\
+  tr_time tr <= 2 ^ 60 /\ 0 <= tr_type tr < Z.of_nat ntypes.
+
+Lemma extend_inv trans types abbrs future trans2 types2 abbrs2 ext ly :
+  extend_transitions trans types abbrs future = OK (Some (trans2, types2, abbrs2, ext, ly)) ->
+  Forall off_ok types ->
+  (forall last, last_opt trans = Some last -> - 2 ^ 59 <= tr_time last <= 2 ^ 59) ->
+  exists gen,
+    trans2 = trans ++ gen /\
+    Forall (gen_tr_ok trans (length types2)) gen /\
+    Z.of_nat (length types) <= Z.of_nat (length types2) /\
+    Forall off_ok types2 /\
+    (Forall (abbr_ok abbrs) types -> Forall (abbr_ok abbrs2) types2).
+Proof.
+  intros H Fo Hl. unfold extend_transitions in H.
+  repeat peel_ext H.
+  all: try (inversion H; subst; clear H).
+  Show.
+Abort.
 
 Lemma load_accept_shape bs z : load_bytes bs = OK (Some z) ->
   exists abbrs types dtt trans3,
